@@ -93,7 +93,8 @@ class Model:
 
 class BuildResult:
     def __init__(self):
-        self.ok = True
+        self.ok = True            # the model driver is built and usable (correspondence and oracles can run)
+        self.lib_ok = True        # the whole library, proofs and obligations included, builds
         self.log = ''
         self.failed_modules = []
         self.axioms = {}          # theorem -> list of axioms (or None if missing)
@@ -160,15 +161,21 @@ def build(theorems, gen=True):
             try:
                 gen_tables.generate()
             except Exception as exc:   # the live package could not be introspected
-                res.ok = False
+                res.lib_ok = False
                 res.log += f"table generation failed: {type(exc).__name__}: {exc}\n"
         rc, out = sh(['lake', 'build', 'Dlismodel', 'model'], cwd=LEAN, timeout=3000)
         res.log += out
         if rc != 0:
-            res.ok = False
+            res.lib_ok = False
             res.failed_modules = re.findall(r'^- (\S+)', out, flags=re.M)
+            # a proof or obligation no longer checks; the executable model (which uses the pinned tables only) is
+            # still needed for the search for a failing input
+            rc_m, out_m = sh(['lake', 'build', 'model'], cwd=LEAN, timeout=3000)
+            if rc_m != 0:
+                res.ok = False
+                res.log += out_m
         res.forbidden = grep_forbidden()
-        if rc == 0 and theorems:
+        if res.lib_ok and rc == 0 and theorems:
             audit = os.path.join(LEAN, '.lake', f'Audit_{os.getpid()}.lean')
             with open(audit, 'w') as f:
                 f.write('import Dlismodel\n')
@@ -280,7 +287,7 @@ def finish(chk, bres, theorems, partial_note=None, extra_assumptions=None):
     lines = []
     violations = 0
 
-    proofs_ok = bres.ok and not bres.forbidden and all(theorem_ok(bres, t) for t in theorems)
+    proofs_ok = bres.ok and bres.lib_ok and not bres.forbidden and all(theorem_ok(bres, t) for t in theorems)
     obligations = len(theorems)
     discharged = sum(1 for t in theorems if theorem_ok(bres, t))
 
@@ -313,7 +320,7 @@ def finish(chk, bres, theorems, partial_note=None, extra_assumptions=None):
     broken = []
     if not proofs_ok:
         what = []
-        if not bres.ok:
+        if not (bres.ok and bres.lib_ok):
             what.append('lake build failed: ' + ', '.join(bres.failed_modules or ['?']))
         if bres.forbidden:
             what.append('forbidden constructs: ' + '; '.join(bres.forbidden[:5]))
